@@ -4,7 +4,7 @@
    Scope: everything AFTER the third-party wire decoders (jx, protobuf, pprof, snappy, gzip, multipart):
    those are exercised by the harness, their accept/reject bit is an input of the model. *)
 From Coq Require Import List String ZArith NArith Bool Permutation.
-From Qryn Require Import model.IngestRobust proofs.IngestRobustProofs model.IngestPipe proofs.IngestPipeProofs gen.GenGoroutinesWriter.
+From Qryn Require Import model.IngestRobust proofs.IngestRobustProofs model.IngestPipe proofs.IngestPipeProofs model.IngestFraming proofs.IngestFramingProofs gen.GenGoroutinesWriter.
 Import ListNotations.
 
 (* ---- goroutines -------------------------------------------------------------------------- *)
@@ -420,30 +420,192 @@ Theorem handler_side_sites_meaning : forall f fn k e, In (f, fn, k, e) gen_handl
 Proof. apply sites_ok_sound. vm_compute. reflexivity. Qed.
 Print Assumptions handler_side_sites_meaning.
 
-(* ---- bytes read per request: the decoded size of a compressed body is NOT limited ------------ *)
+(* ---- bytes read per request: the decoded size of a compressed body is limited (fix of the third session) --------- *)
 
-(* "the bytes a request makes the server read stay within what the oracle tolerates for its size" is FALSE of the
-   pipeline: under Content-Encoding gzip 100 KiB on the wire can be 100 MiB decoded (deflate allows 1032:1), which the
-   routes read whole.  Witness replayed on the real router: corpus/C05/findings.jsonl (33 KB -> hundreds of MB
-   allocated); listed as finding decompression-amplification. *)
-Theorem decoded_size_unbounded_refuted : exists ce body decoded,
+(* Before the fix the routes read gzip.NewReader / snappy.NewReader themselves: "the bytes a request makes the server read
+   stay within what the oracle tolerates for its size" was FALSE (100 KiB on the wire, 100 MiB decoded; replayed on the real
+   router as 33 KB -> 590 MB allocated; former finding decompression-amplification).  Kept for the record: *)
+Theorem decoded_size_unbounded_before_the_fix : exists ce body decoded,
   (0 <= decoded <= gzip_max_ratio * body)%Z /\ ~ (bytes_read ce body decoded <= alloc_bound_bytes body)%Z.
 Proof.
   exists "gzip"%string, 102400%Z, 104857600%Z. destruct gzip_amplification_witness as [H1 H2].
   split; [exact H1|]. intros H. apply (Z.lt_irrefl (alloc_bound_bytes 102400)). eapply Z.lt_le_trans; [exact H2|exact H].
 Qed.
-Print Assumptions decoded_size_unbounded_refuted.
+Print Assumptions decoded_size_unbounded_before_the_fix.
 
-(* strongest true form: without Content-Encoding the server reads the body it was sent; and a snappy BLOCK body
-   (remote write, Loki protobuf) is not decoded beyond the 10 MiB limit that is still in the source *)
-Theorem decoded_size_partial :
-  (forall body decoded, (0 <= body)%Z -> (bytes_read "" body decoded <= alloc_bound_bytes body)%Z) /\
-  gen_snappy_limit = Some snappy_limit.
-Proof. split; [exact identity_encoding_reads_the_body|vm_compute; reflexivity]. Qed.
-Print Assumptions decoded_size_partial.
+(* helpers.LimitDecoded (regenerated and pinned: limiter_in_source below), for EVERY sequence of Read calls of a consumer
+   (any buffer sizes) and EVERY behaviour of the decompressor below it (any chunking, corrupt at any point), whatever the
+   decoded size of the body: never a negative count, and in total at most `limit` bytes are handed over *)
+Theorem limited_reader_never_delivers_more_than_the_limit : forall limit decoded calls,
+  (0 <= limit)%Z -> calls_ok calls ->
+  (0 <= delivered (lim_run (lim_init limit decoded) calls) <= limit)%Z.
+Proof. exact limited_reader_bound. Qed.
+Print Assumptions limited_reader_never_delivers_more_than_the_limit.
 
-Example decoded_size_partial_hyp_met : (0 <= 73662464)%Z /\ bytes_read "" 73662464 0 = 73662464%Z.
-Proof. split; [discriminate|reflexivity]. Qed.
+Example limited_reader_hyps_met :
+  (calls_ok ([(512, 100); (0, 5); (4096, 70000)]%Z)) /\
+  (lim_run (lim_init 600 100000) ([(512, 100); (0, 5); (4096, 70000)]%Z) = ([(100, ENil); (0, ENil); (500, ETooLong)]%Z)).
+Proof. split; [repeat constructor; discriminate|reflexivity]. Qed.
+
+(* a body within the limit is read exactly as before the fix: same counts, same errors, call by call *)
+Theorem limited_reader_is_transparent_within_the_limit : forall limit decoded calls,
+  calls_ok calls -> (0 <= decoded <= limit)%Z -> lim_run (lim_init limit decoded) calls = under_run decoded calls.
+Proof. exact limited_reader_transparent. Qed.
+Print Assumptions limited_reader_is_transparent_within_the_limit.
+
+Example limited_reader_transparent_hyps_met :
+  (calls_ok ([(512, 100); (4096, 70000); (8, 1)]%Z)) /\ (0 <= 600 <= 600)%Z /\
+  (under_run 600 ([(512, 100); (4096, 70000); (8, 1)]%Z) = ([(100, ENil); (500, ENil); (0, EEof)]%Z)).
+Proof. split; [repeat constructor; discriminate|split; [split; discriminate|reflexivity]]. Qed.
+
+(* io.ReadAll over the limiter (withUnsnappyRequest, withBufferedBody, the OTLP PreRequest): it returns the whole body iff
+   the body is within the limit; beyond it the loop ends with the 400 error after exactly `limit` buffered bytes; a corrupt
+   stream or an interrupted loop never buffered more than min(decoded, limit) *)
+Theorem read_all_over_the_limiter : forall limit decoded calls, calls_ok calls -> (0 <= limit)%Z -> (0 <= decoded)%Z ->
+  match read_all (lim_init limit decoded) calls 0 with
+  | AllOk n => n = decoded /\ (decoded <= limit)%Z
+  | AllErr ETooLong n => n = limit /\ (limit < decoded)%Z
+  | AllErr EUnder n => (n <= Z.min decoded limit)%Z
+  | AllErr _ _ => False
+  | AllMore n => (n <= Z.min decoded limit)%Z
+  end.
+Proof. exact read_all_result. Qed.
+Print Assumptions read_all_over_the_limiter.
+
+(* bounded time: with room in the buffer and a decompressor that makes progress the loop ends within min(decoded, limit+1) + 2 reads *)
+Theorem read_all_over_the_limiter_terminates : forall limit decoded calls, calls_progress calls -> (0 <= limit)%Z -> (0 <= decoded)%Z ->
+  (Z.min decoded (limit + 1) + 1 < Z.of_nat (List.length calls))%Z ->
+  match read_all (lim_init limit decoded) calls 0 with AllMore _ => False | _ => True end.
+Proof. exact read_all_terminates. Qed.
+Print Assumptions read_all_over_the_limiter_terminates.
+
+Example read_all_hyps_met :
+  (calls_progress (repeat ((512, 300)%Z) 6)) /\ (read_all (lim_init 1000 5000) (repeat ((512, 300)%Z) 6) 0 = AllErr ETooLong 1000).
+Proof. split; [repeat constructor; discriminate|reflexivity]. Qed.
+
+(* the full form of what was refuted: the bytes a request makes the server read are bounded by its wire size and the
+   operator's limit alone, for every Content-Encoding and every compression ratio; so is the oracle's allowance *)
+Theorem decoded_size_bounded : forall ce body decoded limit, (0 <= body)%Z -> (0 <= limit)%Z ->
+  (bytes_read_limited ce body decoded limit <= Z.max body limit)%Z.
+Proof. exact bytes_read_limited_bound. Qed.
+Print Assumptions decoded_size_bounded.
+
+Theorem allocation_allowance_independent_of_the_compression_ratio : forall ob,
+  (served_kb ob <= Z.max (ob_body_kb ob) (ob_limit_kb ob))%Z.
+Proof. exact served_kb_bound. Qed.
+Print Assumptions allocation_allowance_independent_of_the_compression_ratio.
+
+(* the limiter in the source: every Content-Encoding WithOverallContextMiddleware accepts (other than none) replaces the
+   body by readColser{helpers.LimitDecoded(reader)}; LimitDecoded starts at pbPool.limit (50 MiB until SetGlobalLimit halves
+   http_settings.input_buffer_mb); Read is the modelled statement list; the error is a 400; the snappy BLOCK limit stays *)
+Theorem limiter_in_source :
+  limiter_source_ok gen_content_encodings gen_ce_body_wraps gen_lim_new gen_lim_read gen_err_decoded_too_long
+    gen_pb_pool_limit gen_set_global_limit_pb = true /\ gen_snappy_limit = Some snappy_limit.
+Proof. vm_compute. split; reflexivity. Qed.
+Print Assumptions limiter_in_source.
+
+(* ---- the connection below the body: a client that stops sending (fix of the third session) ------------------ *)
+
+(* main.go httpStart serves the router with an http.Server whose ReadTimeout is regenerated from the source
+   (server_config_in_source).  For EVERY client behaviour after the request head (any deliveries, silences, a close, or
+   silence for ever) the handler's wait for the body ends: the body is complete before the deadline, or Read fails no
+   later than the deadline and the handler returns with an error status.  No request holds a handler goroutine for ever. *)
+Theorem no_client_holds_a_handler_forever : forall need evs,
+  match read_body gen_server_read_timeout_ms need 0 0 evs with
+  | BodyRead t => (0 <= t < gen_server_read_timeout_ms)%Z
+  | BodyAborted t => (0 <= t <= gen_server_read_timeout_ms)%Z
+  | BodyWaitsForever => False
+  end.
+Proof. intros need evs. apply stalled_body_released. vm_compute. reflexivity. Qed.
+Print Assumptions no_client_holds_a_handler_forever.
+
+Example stalled_client_is_cut_at_the_deadline :
+  read_body gen_server_read_timeout_ms 1000 0 0 [CDeliver 10; CSilence 3600000] = BodyAborted 120000.
+Proof. vm_compute. reflexivity. Qed.
+
+(* before the fix (http.Serve(listener, server): a zero-value http.Server, no deadline) this was FALSE: a client that sends
+   part of its body and then nothing held the handler however long one waited -- replayed over a real listener by
+   `ingestfuzz --stall` (corpus/C05/observed_before_fix.txt) *)
+Theorem zero_value_server_held_handlers_forever : forall need sent silences, (0 <= sent < need)%Z ->
+  read_body 0 need 0 0 (CDeliver sent :: map CSilence silences) = BodyWaitsForever.
+Proof. exact stalled_body_held_without_deadline. Qed.
+Print Assumptions zero_value_server_held_handlers_forever.
+
+Example zero_value_server_hyps_met : (0 <= 65 < 130)%Z /\ read_body 0 130 0 0 (CDeliver 65 :: map CSilence [1200; 86400000]%Z) = BodyWaitsForever.
+Proof. split; [split; [discriminate|reflexivity]|reflexivity]. Qed.
+
+Theorem server_config_in_source :
+  server_source_ok gen_server_serve gen_server_read_timeout_ms gen_server_read_header_timeout_ms = true.
+Proof. vm_compute. reflexivity. Qed.
+Print Assumptions server_config_in_source.
+
+(* ---- NDJSON framing: the bufio.Scanner loops of the Cloudflare, Elasticsearch-bulk and Zipkin-NDJSON decoders ----- *)
+
+(* the loops are regenerated from the source (scanner.Split / scanner.Buffer, the error checks inside the loop, the
+   scanner.Err() check after it, the final return nil); the line handlers (jx, onEntries, decodeSpan) and the reader are
+   oracles: any verdict per line, any line lengths, a failing reader at the end *)
+Theorem framing_loops_match_source : frame_progs_eqb gen_frame_progs frame_progs_model = true /\ forallb frame_ok gen_frame_progs = true.
+Proof. vm_compute. split; reflexivity. Qed.
+Print Assumptions framing_loops_match_source.
+
+(* never a silent drop: whenever a regenerated loop returns nil it has handed EVERY line of the body to the line handler,
+   every handler call returned nil, no line reached the token limit and the reader ended with EOF *)
+Theorem ndjson_framing_never_drops_a_line : forall p b n, In p gen_frame_progs -> frame_run p b = FrOk n ->
+  n = Z.of_nat (List.length (body_lines b)) /\ nd_malformed (fp_max_token p) b = false.
+Proof.
+  intros p b n Hin. apply frame_ok_means_every_line_handled.
+  assert (H : forallb frame_ok gen_frame_progs = true) by (vm_compute; reflexivity).
+  rewrite forallb_forall in H. exact (H p Hin).
+Qed.
+Print Assumptions ndjson_framing_never_drops_a_line.
+
+(* every framing error becomes an error: a line the handler refuses, a line of 16 MiB or more, a reader that fails (the
+   decoded-size limiter, a corrupt gzip stream, the read deadline) make Decode return a typed error -- answered 4xx/5xx by
+   ErrorHandler (every_error_has_status_partial), never 2xx *)
+Theorem ndjson_framing_errors_are_reported : forall p b, In p gen_frame_progs -> nd_malformed (fp_max_token p) b = true ->
+  exists n, frame_run p b = FrErr n.
+Proof.
+  intros p b Hin. apply malformed_body_is_an_error.
+  assert (H : forallb frame_ok gen_frame_progs = true) by (vm_compute; reflexivity).
+  rewrite forallb_forall in H. exact (H p Hin).
+Qed.
+Print Assumptions ndjson_framing_errors_are_reported.
+
+Theorem ndjson_wellformed_body_is_fully_handled : forall p b, In p gen_frame_progs -> nd_malformed (fp_max_token p) b = false ->
+  frame_run p b = FrOk (Z.of_nat (List.length (body_lines b))).
+Proof.
+  intros p b Hin. apply wellformed_body_fully_handled.
+  assert (H : forallb frame_ok gen_frame_progs = true) by (vm_compute; reflexivity).
+  rewrite forallb_forall in H. exact (H p Hin).
+Qed.
+Print Assumptions ndjson_wellformed_body_is_fully_handled.
+
+Example ndjson_framing_hyps_met :
+  let p := {| fp_name := "elasticBulkDec"; fp_split_lines := true; fp_max_token := 16777216; fp_line_err_returns := true;
+              fp_checks_scan_err := true; fp_scan_err_typed := true; fp_returns_nil := true |} in
+  let long := {| nb_lines := [{| nl_len := 40; nl_ok := true; nl_rows := 1 |}; {| nl_len := 16777216; nl_ok := true; nl_rows := 1 |}; {| nl_len := 40; nl_ok := true; nl_rows := 1 |}];
+                 nb_tail := None; nb_end := EndClean |} in
+  let good := {| nb_lines := [{| nl_len := 40; nl_ok := true; nl_rows := 1 |}; {| nl_len := 16777215; nl_ok := true; nl_rows := 1 |}];
+                 nb_tail := Some {| nl_len := 12; nl_ok := true; nl_rows := 1 |}; nb_end := EndClean |} in
+  In p gen_frame_progs /\ nd_malformed 16777216 long = true /\ frame_run p long = FrErr 1 /\
+  nd_malformed 16777216 good = false /\ frame_run p good = FrOk 3.
+Proof. vm_compute. split; [right; left; reflexivity|repeat split]. Qed.
+
+(* the loops as they were before 630762c / 41ad518 (64 KiB tokens, scanner.Err() not looked at): a 70000-byte line ended the
+   scan, it and the line after it were dropped, and Decode returned nil -- answered 2xx (C03's and C06's repairs) *)
+Theorem scanner_error_was_dropped_before_the_fix :
+  frame_run frame_prog_orig {| nb_lines := [{| nl_len := 70000; nl_ok := true; nl_rows := 1 |}; {| nl_len := 20; nl_ok := true; nl_rows := 1 |}]; nb_tail := None; nb_end := EndClean |} = FrOk 0.
+Proof. exact scanner_error_was_dropped. Qed.
+Print Assumptions scanner_error_was_dropped_before_the_fix.
+
+(* ---- the equal-length contract of the non-literal onEntries call sites is regenerated, not read --------------- *)
+
+(* log_batches_are_rectangular holds for streams whose onEntries calls hand over four slices of one length; 8 call sites pass
+   one-element literals; for each of the other 5 the translator's syntactic lockstep analysis (see model/IngestFraming.v
+   section 4) succeeds on the current source: the slices passed change length only together *)
+Theorem non_literal_on_entries_sites_change_lengths_in_lockstep : lockstep_ok gen_on_entries_calls gen_on_entries_lockstep = true.
+Proof. vm_compute. reflexivity. Qed.
+Print Assumptions non_literal_on_entries_sites_change_lengths_in_lockstep.
 
 (* ---- the scripted-decoder correspondence (harness pipefuzz) ----------------------------------- *)
 
